@@ -371,4 +371,23 @@ theorem cells?_congr {p p' : Plane} (h : p'.gridsize = p.gridsize ∧ p'.x0 = p.
 theorem remove_ok (p : Plane) (o : PObj) (h : o.id ∈ p.objs) : (remove p o).2 = true := by
   unfold remove; cases cells? p (bboxOf o) <;> simp [h]
 
+/-! ### Round 6: removal of an absent object, `__contains__`, `__len__`, `extend` -/
+
+theorem foldl_erase_absent (ks : List Key) (o : PObj) (g : List (Key × PObj)) (h : ∀ k, (k, o) ∉ g) :
+    ks.foldl (fun g k => g.erase (k, o)) g = g := by
+  induction ks with
+  | nil => rfl
+  | cons k ks ih =>
+    simp only [List.foldl_cons]
+    rw [List.erase_of_not_mem (h k)]
+    exact ih
+
+theorem extend_nil (p : Plane) : extend p [] = p := rfl
+theorem extend_cons (p : Plane) (o : PObj) (os : List PObj) : extend p (o :: os) = extend (add p o) os := rfl
+
+/-- Lists of distinct numbers with the same members have the same length. -/
+theorem length_eq_of_nodup_of_mem_iff {l₁ l₂ : List Nat} (h₁ : l₁.Nodup) (h₂ : l₂.Nodup)
+    (h : ∀ x, x ∈ l₁ ↔ x ∈ l₂) : l₁.length = l₂.length :=
+  ((List.perm_ext_iff_of_nodup h₁ h₂).mpr h).length_eq
+
 end PdfVerif.Plane
